@@ -37,6 +37,11 @@ func init() {
 		"archive/zip.OpenReader":      extZipOpenReader,
 		"(*strings.Builder).WriteString": extBuilderWrite,
 		"(*strings.Builder).String":      extBuilderString,
+		"(*strings.Builder).Len":         extBuilderLen,
+		"(*strings.Builder).Reset":       extBuilderReset,
+		"(*strings.Builder).WriteByte":   extBuilderWriteUnknown,
+		"(*strings.Builder).WriteRune":   extBuilderWriteUnknown,
+		"(*strings.Builder).Write":       extBuilderWriteUnknown,
 		"(*archive/zip.File).Open":    extZipFileOpen,
 		"io.ReadAll":                  extReadAll,
 		"image/png.Decode":            extNonNilOnSuccess,
@@ -55,6 +60,8 @@ func init() {
 	for _, n := range []string{"Ext", "Base", "Dir", "IsAbs"} {
 		externals["path/filepath."+n] = extPureUF("filepath_" + n)
 	}
+	externals["strings.Fields"] = extStringList("strings_Fields", 1)
+	externals["strings.Split"] = extStringList("strings_Split", 2)
 	externals["strconv.FormatBool"] = extPureUF("strconv_FormatBool")
 	externals["strconv.FormatInt"] = extPureUF("strconv_FormatInt")
 	registerRegexpModel()
@@ -594,8 +601,112 @@ func extBuilderWrite(f *frame, cm *ssa.CallCommon, args []Val, st *State, name s
 	cur := st.Heap(h)
 	st.heaps[h] = f.c.defineHeap(h, fmt.Sprintf("(store %s %s (Str_cat (select %s %s) %s))", cur, args[0].T, cur, args[0].T, args[1].T))
 	f.c.assume(st, fmt.Sprintf("(= (itag %s) 0)", r.Tuple[1].T))
-	f.c.assumed["strings.Builder: WriteString appends its argument to the builder's content and never fails; String returns the content; a new builder is empty"] = true
+	f.c.assumed[sbAssumption] = true
 	return r
+}
+
+// Len: the length of the content; Reset: the content becomes empty; WriteByte/WriteRune/Write: something is appended
+// (the new content is an unconstrained string that is at least as long as the old one).
+func extBuilderLen(f *frame, cm *ssa.CallCommon, args []Val, st *State, name string, resT types.Type, pos token.Pos) Val {
+	args[0].T = builderRef(args[0])
+	if args[0].T == "" {
+		r := f.freshResult(resT, st, name)
+		f.c.assume(st, fmt.Sprintf("(>= %s 0)", r.T))
+		return r
+	}
+	f.c.assumed[sbAssumption] = true
+	return Val{T: f.c.define(name, SInt, fmt.Sprintf("(Str_len (select %s %s))", st.Heap(sbHeap(f.c.g)), args[0].T)), Typ: resT}
+}
+
+func extBuilderReset(f *frame, cm *ssa.CallCommon, args []Val, st *State, name string, resT types.Type, pos token.Pos) Val {
+	args[0].T = builderRef(args[0])
+	if args[0].T == "" {
+		return Val{Typ: resT}
+	}
+	h := sbHeap(f.c.g)
+	st.heaps[h] = f.c.defineHeap(h, fmt.Sprintf("(store %s %s str_empty)", st.Heap(h), args[0].T))
+	f.c.assumed[sbAssumption] = true
+	return Val{Typ: resT}
+}
+
+func extBuilderWriteUnknown(f *frame, cm *ssa.CallCommon, args []Val, st *State, name string, resT types.Type, pos token.Pos) Val {
+	r := f.freshResult(resT, st, name)
+	args[0].T = builderRef(args[0])
+	if args[0].T == "" {
+		return r
+	}
+	h := sbHeap(f.c.g)
+	cur := st.Heap(h)
+	nc := f.c.declare("sbnew", SStr)
+	f.c.assume(st, fmt.Sprintf("(>= (Str_len %s) (Str_len (select %s %s)))", nc, cur, args[0].T))
+	st.heaps[h] = f.c.defineHeap(h, fmt.Sprintf("(store %s %s %s)", cur, args[0].T, nc))
+	f.c.assumed[sbAssumption] = true
+	return r
+}
+
+const sbAssumption = "strings.Builder: WriteString appends its argument to the builder's content and never fails; String returns the content; a new builder is empty"
+
+// sbPre: the ghost key r names a builder that existed when the allocation counter was n: a first-class builder
+// allocated below n, or a builder field (interior key) of an object allocated below n.
+func sbPre(r, n string) string {
+	return fmt.Sprintf("(or (alloc %s %s) (and ((_ is elem) %s) (< (earr %s) 0) (< (- 0 (earr %s)) %s)))", r, n, r, r, r, n)
+}
+
+// sbFrame: every builder that existed at bound (allocation counter) and is not one of keys has the same content in
+// the versions a and b of the ghost builder heap.
+func sbFrame(a, b, bound string, keys []string) string {
+	if a == b {
+		return "true"
+	}
+	conds := []string{sbPre("r", bound)}
+	for _, k := range keys {
+		conds = append(conds, fmt.Sprintf("(not (= r %s))", k))
+	}
+	return fmt.Sprintf("(forall ((r Ref)) (! (=> (and %s) (= (select %s r) (select %s r))) :pattern ((select %s r))))", strings.Join(conds, " "), b, a, b)
+}
+
+// builderMutator: methods of strings.Builder that change the content.
+func builderMutator(name string) bool {
+	switch name {
+	case "(*strings.Builder).WriteString", "(*strings.Builder).Reset", "(*strings.Builder).WriteByte", "(*strings.Builder).WriteRune", "(*strings.Builder).Write":
+		return true
+	}
+	return false
+}
+
+// localOnlyBuilder: v is a strings.Builder variable of the function itself whose address is used for nothing but
+// calls of strings.Builder methods on it (it is not stored, returned, boxed or passed on): no caller can observe
+// its content, so writing it is not a side effect.
+func localOnlyBuilder(v ssa.Value, scope map[*ssa.BasicBlock]bool) bool {
+	al, ok := v.(*ssa.Alloc)
+	if !ok {
+		return false
+	}
+	if scope != nil && !scope[al.Block()] {
+		return false
+	}
+	if al.Referrers() == nil {
+		return false
+	}
+	for _, ref := range *al.Referrers() {
+		switch r := ref.(type) {
+		case *ssa.DebugRef:
+		case ssa.CallInstruction:
+			cm := r.Common()
+			sc := cm.StaticCallee()
+			if sc == nil || !strings.HasPrefix(sc.String(), "(*strings.Builder).") || len(cm.Args) == 0 || cm.Args[0] != ssa.Value(al) {
+				return false
+			}
+			for _, a := range cm.Args[1:] {
+				if a == ssa.Value(al) {
+					return false
+				}
+			}
+		default:
+			return false
+		}
+	}
+	return true
 }
 
 func extBuilderString(f *frame, cm *ssa.CallCommon, args []Val, st *State, name string, resT types.Type, pos token.Pos) Val {
@@ -814,4 +925,56 @@ func extZipOpenReader(f *frame, cm *ssa.CallCommon, args []Val, st *State, name 
 	c.assume(st, fmt.Sprintf("(=> (= (itag %s) 0) (and (slice_ok %s %s) (forall ((i Int)) (! (=> (and (<= 0 i) (< i (slen %s))) (and (not (= (select %s (selem %s i)) nil)) (alloc (select %s (selem %s i)) %s))) :pattern ((selem %s i))))))", err.T, files, st.next, files, st.Heap(ch), files, st.Heap(ch), files, st.next, files))
 	c.assumed["archive/zip.OpenReader: on success every element of the embedded Reader.File is non-nil"] = true
 	return r
+}
+
+// strListUFs: a library function returning a list of strings that is a function of its string arguments
+// (strings.Fields(s), strings.Split(s, sep)): <sym>_len(args) >= 0 and <sym>_at(args, i).
+func strListUFs(g *Gen, sym string, nargs int) (lenF, atF string) {
+	var sorts []string
+	for i := 0; i < nargs; i++ {
+		sorts = append(sorts, SStr)
+	}
+	lenF = g.UF(sym+"_len", sorts, SInt)
+	atF = g.UF(sym+"_at", append(append([]string{}, sorts...), SInt), SStr)
+	var bs, vs []string
+	for i := 0; i < nargs; i++ {
+		bs = append(bs, fmt.Sprintf("(a%d Str)", i))
+		vs = append(vs, fmt.Sprintf("a%d", i))
+	}
+	app := fmt.Sprintf("(%s %s)", lenF, strings.Join(vs, " "))
+	ax := fmt.Sprintf("(assert (forall (%s) (! (>= %s 0) :pattern (%s))))", strings.Join(bs, " "), app, app)
+	for _, a := range g.axioms {
+		if a == ax {
+			return
+		}
+	}
+	g.axioms = append(g.axioms, ax)
+	return
+}
+
+// extStringList: the result is a fresh slice (nil when empty is allowed: a zero-length slice) whose length and
+// elements are the list functions of the arguments; no existing memory is written.
+func extStringList(sym string, nargs int) extHandler {
+	return func(f *frame, cm *ssa.CallCommon, args []Val, st *State, name string, resT types.Type, pos token.Pos) Val {
+		c := f.c
+		g := c.g
+		lenF, atF := strListUFs(g, sym, nargs)
+		var ts []string
+		for i := 0; i < nargs; i++ {
+			ts = append(ts, args[i].T)
+		}
+		as := strings.Join(ts, " ")
+		pre := st.next
+		f.havocNext(st)
+		r := f.freshResult(resT, st, name)
+		ch := g.TE.CellHeap(types.Typ[types.String])
+		old := st.Heap(ch)
+		f.havocHeaps(st, []string{ch})
+		cur := st.Heap(ch)
+		c.assume(st, fmt.Sprintf("(forall ((r Ref)) (! (=> (alloc r %s) (= (select %s r) (select %s r))) :pattern ((select %s r))))", pre, cur, old, cur))
+		c.assume(st, fmt.Sprintf("(and (= (slen %s) (%s %s)) (= (soff %s) 0) (or (= (scap %s) 0) (>= (sarr %s) %s)) (forall ((i Int)) (! (=> (and (<= 0 i) (< i (slen %s))) (= (select %s (selem %s i)) (%s %s i))) :pattern ((selem %s i)))))",
+			r.T, lenF, as, r.T, r.T, r.T, pre, r.T, cur, r.T, atF, as, r.T))
+		c.assumed["external "+strings.ReplaceAll(sym, "_", ".")+": the resulting list of strings is a function of the arguments (uninterpreted length and elements), returned in a fresh slice; no existing memory is written"] = true
+		return r
+	}
 }
